@@ -74,6 +74,23 @@ def gen_case(rng, tier, idx):
         n = rng.randint(20, 200)
         rows = streams.make_rows(rng, n, "walk", step, rng.choice(["regular", "jitter", "gaps", "dups"]), unit, max_gap_buckets=8)
         sch = schedules.rand_schedule(rng, n, bucket=per_bucket)
+    ha_ok = generous
+    if not generous and rng.random() < 0.4:
+        # "preload_long": a history longer than the lifespan is handed over at construction, then small appends. The window keeps
+        # >= 5 buckets, so the still-forming bucket always has its predecessor (all a Heikin-Ashi conversion needs). Oracle 1 only.
+        life_units = rng.randint(5, 15)
+        n = (life_units * 3 + 10) * per_bucket
+        rows = streams.make_rows(rng, n, "walk", step, "regular", unit)
+        pre = rng.randint(life_units * per_bucket + 5, n - 10)
+        chunks, left = [], n - pre
+        while left > 0:
+            c = min(left, rng.randint(1, 3))
+            chunks.append(c)
+            left -= c
+        sch = {"preload": pre, "precalc": rng.random() < 0.5, "chunks": chunks, "enc": "candle"}
+        ha_ok = True
+    if ha_ok and tfkind != "collapse_fill" and rng.random() < 0.3:
+        cfg["kw"]["candlestick_type"] = "HA"  # converted values of retained candles must not depend on trimming either
     lifespan = life_units * unit + rng.choice([0, 0, 1, unit // 2])
     return {"cfg": cfg, "rows": rows, "schedule": sch, "lifespan_s": lifespan, "generous": generous, "tfkind": tfkind}
 
@@ -81,7 +98,8 @@ def gen_case(rng, tier, idx):
 def run_case(case):
     cfg, rows, sch = case["cfg"], case["rows"], case["schedule"]
     cls = cfg["cls"] if cfg["cls"] != "Amorph" else f"Amorph:{cfg['analysis']}"
-    stats = {"classes_seen": [cls], "modes": {"generous" if case["generous"] else "tight": 1}, "tfkinds": {case["tfkind"]: 1}}
+    stats = {"classes_seen": [cls], "modes": {"generous" if case["generous"] else "tight": 1}, "tfkinds": {case["tfkind"]: 1},
+             "candlestick": {"HA" if cfg["kw"].get("candlestick_type") else "none": 1}}
     viol = []
     life = timedelta(seconds=case["lifespan_s"])
     pre = sch["preload"]
